@@ -461,7 +461,7 @@ def check_cli_views(case, stats: Stats):
         for cmd in (['up', '-q', '--format', 'json', b.config], ['up', '--format', 'summary', b.config], ['up', '-q', b.config]):
             r = cli.run(cmd, cwd=b.root)
             out = r.out + r.err
-            if 'Traceback' in out:
+            if obs.crashed(out):
                 raise Violation(f"`tally {' '.join(cmd[:-1])}` crashed on a corrupt views file:\n{out[-800:]}", {'kind': 'cli_views', 'which': case['which']}, 'cli-views-crash')
             if not ('views' in out.lower() and any(w in out.lower() for w in ('error', 'invalid', 'could not', 'cannot', 'failed', 'unable', 'line '))):
                 raise Violation(f"`tally {' '.join(cmd[:-1])}` on a budget whose views.rules is corrupt does not report the error (exit {r.code}):\n--- views\n{text}\n--- output\n{out[-1200:]}",
